@@ -14,8 +14,12 @@ Theorem c02_marshal_fixpoint : forall lv lv',
 Proof. exact marshal_fixpoint. Qed.
 Print Assumptions c02_marshal_fixpoint.
 
-(* Reading back succeeds exactly when every run's parent was created before it (ReadRun resolves parent_uuid
-   among the runs read so far); otherwise it is the error "unable to find run with UUID". *)
+(* In the model, reading back succeeds exactly when every run's parent was created before it (ReadRun resolves
+   parent_uuid among the runs read so far); otherwise it is the error "unable to find run with UUID".  The real
+   ReadSession has further failure paths that the model does not have — validation of members outside the core flow
+   language, and since goflow f4c75dd "error reading parent run from trigger" when the run summary stored in a
+   flow_action trigger cannot be re-read; the latter is an assumption of this check (checks/C02.json), the former are
+   covered by the direct oracle (classes reread-fails:*). *)
 Theorem c02_reread_succeeds_iff : forall lv,
   (exists lv', restore (persist lv) = Restored lv') <-> parents_precede (s_runs (lv_core lv)).
 Proof. exact reread_succeeds_iff. Qed.
@@ -62,7 +66,7 @@ Print Assumptions c02_resume_bisim.
    resumes [rs] and restart pattern [bs] (restart before the i-th resume iff the i-th boolean is true), every call
    has the same outcome — events, segments, resulting persisted session, or the same rejection / error — and its
    actions read the same per-call fields as when the session is never re-read; in particular reading back never
-   fails along a history. *)
+   fails along a history (in the model: see the note at c02_reread_succeeds_iff). *)
 Theorem c02_any_restart_subset : forall a tmo t f batch rs bs,
   run_history_v a tmo t f batch (with_pattern bs rs) = run_history_v a tmo t f batch (never rs).
 Proof. exact any_restart_subset_full. Qed.
@@ -108,10 +112,12 @@ Theorem c02_fields_classified :
 Proof. exact fields_classified. Qed.
 Print Assumptions c02_fields_classified.
 
-(* the unpersisted members that are not rebuilt from persisted state are exactly the four the model carries
-   (currentResume, batchStart, pushedFlow, parentRun) and the statement's two exemptions (webhook, legacyExtra) *)
+(* the unpersisted members that a read resets are exactly three (currentResume, batchStart, pushedFlow: all carried by the
+   model); the ones it rebuilds from persisted state are runsByUUID and parentRun; the statement's two exemptions are
+   webhook and legacyExtra *)
 Theorem c02_per_call_and_exempt_members :
   names_with is_per_call session_classes = per_call_members /\
+  names_with is_rebuilt session_classes = rebuilt_session_members /\
   names_with is_per_call run_classes = [] /\
   names_with is_exempt run_classes = exempt_members /\
   names_with is_exempt session_classes = [].
@@ -126,3 +132,20 @@ Theorem c02_reread_keeps_parent : forall a tmo lv lv',
   reachable a tmo lv -> restore (persist lv) = Restored lv' -> t_parent (lv_tr lv') = t_parent (lv_tr lv).
 Proof. exact reread_keeps_parent. Qed.
 Print Assumptions c02_reread_keeps_parent.
+
+(* No engine call changes whether the trigger's parent run is loaded (NewSession and ReadSession have loaded it whenever
+   the trigger carries a run summary), and a REJECTED resume leaves the whole Go session — persisted state, trigger's batch
+   flag, ParentRun() — as it was.  (The C10 sentence "a rejected resume leaves the session exactly as it was" for the one
+   unpersisted member a rejected resume could touch; before goflow f4c75dd a re-read session flipped it from nil to loaded.) *)
+Theorem c02_resume_keeps_parent : forall a tmo lv r,
+  reachable a tmo lv -> t_parent (snd (live_resume a lv r tmo)) = t_parent (lv_tr lv).
+Proof. exact resume_keeps_parent. Qed.
+Print Assumptions c02_resume_keeps_parent.
+
+Theorem c02_rejected_resume_leaves_session : forall a tmo lv r code,
+  reachable a tmo lv -> fst (live_resume a lv r tmo) = Rejected code ->
+  exists lv', after_call lv (fst (live_resume a lv r tmo)) (snd (live_resume a lv r tmo)) = Some lv' /\
+              lv_core lv' = lv_core lv /\ lv_batch_trigger lv' = lv_batch_trigger lv /\
+              t_parent (lv_tr lv') = t_parent (lv_tr lv).
+Proof. exact rejected_resume_leaves_session. Qed.
+Print Assumptions c02_rejected_resume_leaves_session.
